@@ -111,7 +111,7 @@ def eval_atom(prog, body, a, r):
     pred, args, pol = a[0], a[1], a[2]
     if pred == "variant":
         x = args[0]
-        if (x[0] == "param" and x[2] == "vote") or K.mentions_name(x, "vote"):
+        if K.mentions_arg(body, x, 2):
             return (r["kind"] in args[1]) == pol
         raise Unknown("variant test on " + mir.show(x))
     if pred == "is_some":
@@ -136,7 +136,7 @@ def eval_atom(prog, body, a, r):
             nm = t[1]
             if nm.endswith("BTreeMap::is_empty") and _votes_field(t[2][0]) == "notar_fallback":
                 return (r["nf"] == "none") == pol
-            if nm.endswith("BTreeMap::contains_key") and _votes_field(t[2][0]) == "notar_fallback" and K.mentions_call(t[2][1], "block_hash") and K.mentions_name(t[2][1], "vote"):
+            if nm.endswith("BTreeMap::contains_key") and _votes_field(t[2][0]) == "notar_fallback" and K.mentions_call(t[2][1], "block_hash") and K.mentions_arg(body, t[2][1], 2):
                 return (r["nf"] == "this") == pol
             if nm.endswith("Option::is_some_and"):
                 f = _votes_field(t[2][0])
